@@ -149,8 +149,10 @@ CONSTANTS
   AdvSet = {%(adv)s}
   MaxTime = %(maxtime)d
   Grid = {%(grid)s}
+  MaxInst = 2
 VIEW View
 CONSTRAINT ClockGrid
+CONSTRAINT InstBound
 CHECK_DEADLOCK FALSE
 '''
 
@@ -705,6 +707,76 @@ def check_c09(tier, seed):
 
 
 # --------------------------------------------------------------------------------------------
+# C10: StoreQuery.tla + store driver
+
+COLLS = ['tasks', 'procs', 'models', 'messages', 'events', 'packages']
+
+
+def check_c10(tier, seed):
+    prop = 'C10'
+    build_harness()
+    quick = tier == 'quick'
+    out, wall = tlc('MCStore.tla', 'SPECIFICATION Spec\nCONSTANT NIds = %d\nINVARIANT CanonicalOK\nINVARIANT Sorted\n'
+                    'INVARIANT PagesPartition\nINVARIANT WrongCountRejected\nCHECK_DEADLOCK FALSE\n' % (2 if quick else 3),
+                    'store-mc', workers=8, timeout=3000)
+    states, trans = tlc_stats(out)
+    if 'Error:' in out or states == 0:
+        raise ToolError('StoreQuery.tla fails its own sanity properties: the specification is wrong\n' + out[-1500:])
+    log('model checking StoreQuery: %d states' % states)
+    runs, ops = (40, 40) if quick else (400, 60)
+    d = '%s/store-%s' % (WORK, tier)
+    shutil.rmtree(d, ignore_errors=True)
+    os.makedirs(d)
+    jobs = [(b, c) for b in ('mem', 'sqlite') for c in COLLS]
+
+    def run(job):
+        b, c = job
+        f = '%s/st-%s-%s.ndjson' % (d, b, c)
+        sh([HARNESS, 'store', '--out', f, '--runs', str(runs), '--ops', str(ops), '--coll', c, '--backend', b,
+            '--seed', str(seed * 100 + COLLS.index(c)), '--workdir', d + '/run'], check=True, timeout=1800)
+        out, wall = tlc('TraceStore.tla', 'SPECIFICATION SSpec\nPOSTCONDITION SDone\nCHECK_DEADLOCK FALSE\n',
+                        'store-tr-%s-%s' % (b, c), env={'TRACE': f}, workers=1, timeout=1800, java_opts=JOPTS)
+        if 'STORE|DONE' not in out:
+            raise ToolError('TraceStore failed on %s\n%s' % (f, out[-2000:]))
+        bad = []
+        for ln in out.split('\n'):
+            if ln.startswith('"STORE|VIOLATION'):
+                p = json.loads(ln).split('|')
+                bad.append(dict(what=p[2], scenario=int(p[3]), line=int(p[4])))
+        return dict(file=f, backend=b, coll=c, scenarios=runs, lines=count_lines(f), bad=bad)
+
+    with concurrent.futures.ThreadPoolExecutor(max_workers=12) as ex:
+        results = list(ex.map(run, jobs))
+    violations = []
+    for r in results:
+        seen = set()
+        for b in r['bad']:
+            if b['scenario'] in seen:
+                continue
+            seen.add(b['scenario'])
+            lines = scenario_lines_by(r['file'], b['scenario'], '"ev":"storemodel"')
+            path = replay_file(prop, tier, seed, 'store deviates from StoreQuery.tla: ' + b['what'],
+                               dict(backend=r['backend'], collection=r['coll'], at_line=b['line'],
+                                    trace=[json.loads(x) for x in lines]))
+            violations.append((b['what'], path))
+    n_scen = sum(r['scenarios'] for r in results)
+    sample = [json.loads(x) for x in scenario_lines_by(results[0]['file'], 1, '"ev":"storemodel"')][:10]
+    write_evidence(prop, tier, seed, 'model_checking', dict(
+        states=states, transitions=trans, traces_validated_against_impl=n_scen - len(violations), samples=[sample],
+        model_checking=dict(spec='spec/StoreQuery.tla via spec/MCStore.tla',
+                            invariants=['CanonicalOK', 'Sorted', 'PagesPartition', 'WrongCountRejected']),
+        conformance=dict(spec='spec/TraceStore.tla', backends=['mem', 'sqlite'], collections=COLLS, scenarios=n_scen,
+                         operations=sum(r['lines'] - r['scenarios'] for r in results), deviating_scenarios=len(violations)),
+        rule='seeded random create/update/delete/find/query sequences per collection and backend; every find and query '
+             'answer recomputed by TLC from the abstract database; whole-record equality decided in the harness'),
+        len(violations), ['records projected to (id, s1, s2, n1, n2); other fields only through the harness equality',
+                          'string filters eq/ne only; no null columns; valid operations only (no create on an existing id)'])
+    for what, path in violations[:5]:
+        print('VIOLATION property=%s replay=%s' % (prop, path))
+    return 1 if violations else 0
+
+
+# --------------------------------------------------------------------------------------------
 
 
 def do_replay(prop, path):
@@ -748,6 +820,8 @@ def main(argv):
             return check_core(prop, tier, seed)
         if prop == 'C09':
             return check_c09(tier, seed)
+        if prop == 'C10':
+            return check_c10(tier, seed)
         print('no check for', prop)
         return 2
     except ToolError as e:
